@@ -69,8 +69,8 @@ REGISTRY = {
                 native=native_sweep('c13_segments.py', 'equal / tapered (types 1,2,3, min/max limits, growth <= 2.1, mirror) segmentation, arc and helix points, transformations through main() vs. independently transformed coordinates', 250, 6000),
                 undecided=[],
                 trusted=['cos^2+sin^2=1, cos 0 = 1, sin 0 = 0, sqrt axioms; np.array of an unbounded list of rows keeps the rows',
-                         'taper1/taper2: the search loops over k (for-else) that choose the number of tapered segments and the growth rule of taper2 (both ends) are NOT under contract (bounded stand-in only); under contract: both emitting loops (exactly n chained pieces), the effective minimum, and for taper1 the growth clause (each piece between 1 and 2.1 times the previous one, unbounded n, inductive invariant) and the mirror image for the other end',
-                         'taper1 growth: one-dimensional end points with p2 > p1 (the statements are dimension-generic; in 3-D every increment is a multiple of the wire vector); pow2(i) = 1 << i as an uninterpreted function with pow2(0) = 1, pow2(i+1) = 2 pow2(i); the two facts about the preamble (minl starts as l/(2^n - 1) and is only raised; eps = minl/10) are checked on its text, not by executing it']),
+                         'taper1/taper2: the search loops over k (for-else) that choose the number of tapered segments under a maximum, and the upper limit itself (taper1 asserts it at run time), are NOT under contract (bounded stand-in only); under contract: both emitting loops (exactly n chained pieces), the effective minimum, the preambles (frame: minl starts as l/npieces, is clamped to the minimum, is only raised), the growth clause of taper1 and of taper2 (both ends: doubling / equal / halving phases, every neighbour ratio within [1, 2.1], every piece at least the effective minimum; unbounded n, inductive invariants) and the mirror image of taper1 for the other end',
+                         'taper growth units: one-dimensional end points with p2 > p1 (the statements are dimension-generic; in 3-D every increment is a multiple of the wire vector); pow2(i) = 1 << i as an uninterpreted function with pow2(0) = 1, pow2(i+1) = 2 pow2(i); the two facts about the preamble (minl starts as l/(2^n - 1) and is only raised; eps = minl/10) are checked on its text, not by executing it']),
     'C20': dict(module='contracts.C20', level='proof',
                 native=native_sweep('c20_failsafe.py', 'about 400 argument lists: every option with every field zero / negative / huge / tiny / nan / inf / text / empty, wrong arity, unknown tags, contradictory options, degenerate and duplicate geometry; outcome classified as report / one-line diagnostic / usage error', 100000, 100000),
                 undecided=['finiteness of the numbers produced by the numeric stage (singular or ill-conditioned systems, non-finite inputs): recorded findings C20-nonfinite, C20-singular',
